@@ -7,9 +7,12 @@ cd "$WT" || exit 2
 git diff -- py_ecc > /tmp/$(basename $WT).patch
 echo "== files touched: $(git diff --stat | tail -1); non-py_ecc source changes: $(git diff --name-only | grep -v '^py_ecc/' | tr '\n' ' ')"
 echo "== demo WITH change"; timeout 300 /venv/bin/python demo.py > /tmp/$(basename $WT).with.log 2>&1; echo "exit=$?"; tail -3 /tmp/$(basename $WT).with.log
-git stash -q
+# (not `git stash`: the stash stack is shared by all worktrees of a repository, and two
+#  confirmations running at once pop each other's changes)
+git diff -- py_ecc > /tmp/$(basename $WT).undo.patch
+git apply -R /tmp/$(basename $WT).undo.patch
 echo "== demo WITHOUT change"; timeout 300 /venv/bin/python demo.py > /tmp/$(basename $WT).without.log 2>&1; echo "exit=$?"; tail -2 /tmp/$(basename $WT).without.log
-git stash pop -q
+git apply /tmp/$(basename $WT).undo.patch
 if [ "$2" != "notests" ]; then
 echo "== test suite WITH change"
 timeout 3000 /venv/bin/python -m pytest -q -p no:cacheprovider --timeout=900 --continue-on-collection-errors tests 2>&1 | tail -3
